@@ -5,7 +5,7 @@ from lib.common import Broken, Violation, verdict, save_replay
 
 PROPS = {
     "C28": {
-        "text": "ProxyMeta.tla is a function-level specification (DESIGN §3.3): TLC enumerates every cluster snapshot of up to 2 topics x up to 2 partitions (topic/partition error codes, leader epochs, topic ids, broker leaders) with every request by name, by topic id (incl. unknown ones, every order) and all-topics, plus FindCoordinator and the not-ready replies, and proves the C28 predicates for the specified reply over that whole domain. Every enumerated input is run through the real handleMetadata (loadMetadata + buildProxyMetadataResponse on a real InMemoryStore), handleFindCoordinator and buildNotReadyResponse; the produced bytes are decoded with franz-go kmsg and TLC evaluates the C28 predicates on the real reply (layer O) and checks real reply = Reply(input) (layer C).",
+        "text": "ProxyMeta.tla is a function-level specification (DESIGN §3.3): TLC enumerates every cluster snapshot of up to 2 topics x up to 2 partitions (topic/partition error codes, leader epochs, topic ids, broker leaders) with every request by name, by topic id (incl. unknown ones, every order) and all-topics, plus FindCoordinator and the not-ready replies, plus a history dimension for by-id requests (the long-lived proxy's id->name cache was refreshed from the same metadata, or from metadata in which every topic still had an older id, i.e. topics were since deleted / re-created), and proves the C28 predicates for the specified reply over that whole domain. Every enumerated input is run through the real handleMetadata (loadMetadata + buildProxyMetadataResponse on a real InMemoryStore; for history inputs the real refreshMetadataCache runs against the earlier metadata, then the store is updated), handleFindCoordinator and buildNotReadyResponse; the produced bytes are decoded with franz-go kmsg and TLC evaluates the C28 predicates on the real reply (layer O) and checks real reply = Reply(input) (layer C).",
         "note": "Trusted: TLC, franz-go kmsg as the reference codec, the harness projection of the decoded reply into records. Snapshots are the well-formed ones the metadata stores can hold (a topic with a topic-level error carries no partitions; topic ids non-zero). Metadata v12 / FindCoordinator v3 only (the versions that carry topic ids and leader epochs / the only advertised one). For a requested name / id the cluster does not have, the reply may carry an error entry without partitions or nothing (its presence and code are conformance-level, not part of C28). Exhaustive for the stated bounds only.",
         "technique": "TLA+ function-level specification (ProxyMeta.tla) + TLC exhaustive enumeration of the input domain + every input run through the real proxy functions + TLC evaluation of the property predicates and of spec equality on the decoded real replies",
         "level": "model_checking",
@@ -13,7 +13,7 @@ PROPS = {
 }
 DEVIATIONS = {
     "KeepLeader": "C28_OnlyProxyLeaders", "KeepBrokers": "C28_OnlyProxyBrokers",
-    "IdFilterAll": "C28_TopologyKept", "DropErrTopics": "C28_TopologyKept",
+    "IdFilterAll": "C28_TopologyKept", "DropErrTopics": "C28_TopologyKept", "StaleIdCache": "C28_TopologyKept",
 }
 OVERLAY = {"cmd/proxy/zz_verif_proxymeta_test.go": "proxymeta_verif_test.go"}
 INVS = ["C28_OnlyProxyBrokers", "C28_OnlyProxyLeaders", "C28_OnlyProxyCoordinator", "C28_TopologyKept"]
@@ -47,6 +47,15 @@ def harness(ctx, inputs, tag):
 
 def key(i):
     return json.dumps(i, sort_keys=True)
+
+
+def klass(i):
+    """Input class: kind:mode, plus the history of the proxy's caches (refreshed from unchanged / since-changed metadata)."""
+    k = i["kind"] + ":" + i["mode"]
+    if i.get("prev"):
+        cur = {(t["name"], t["id"]) for t in i["snap"]}
+        k += ":warm-cache-unchanged" if {(t["name"], t["id"]) for t in i["prev"]} == cur else ":after-metadata-change"
+    return k
 
 
 def check(ctx, prop):
@@ -85,11 +94,11 @@ def check(ctx, prop):
     violations, seen = [], set()
     for line, inv in sorted(viol):
         r = rows[line - 1]
-        sig = "%s@%s:%s" % (inv, r["in"]["kind"], r["in"]["mode"])
+        sig = "%s@%s" % (inv, klass(r["in"]))
         if sig in seen:
             continue
         seen.add(sig)
-        n = sum(1 for l2, i2 in viol if i2 == inv and rows[l2 - 1]["in"]["kind"] == r["in"]["kind"] and rows[l2 - 1]["in"]["mode"] == r["in"]["mode"])
+        n = sum(1 for l2, i2 in viol if i2 == inv and klass(rows[l2 - 1]["in"]) == klass(r["in"]))
         path = save_replay(prop, "input-%s.json" % re.sub(r"\W", "_", sig), {"schedule": r["in"], "reply": r["reply"]})
         violations.append(Violation(prop, sig, "%s false on the real reply for %d input(s); first: input %s -> reply %s [replay %s]" % (
             inv, n, json.dumps(r["in"], sort_keys=True), json.dumps(r["reply"], sort_keys=True), path), {"schedule": r["in"], "reply": r["reply"]}))
@@ -105,9 +114,10 @@ def check(ctx, prop):
         ctx.log("DRIFT: real reply differs from Reply(input) although C28 held: " + json.dumps(conf["first_rejection"]))
     kinds = {}
     for i in inputs:
-        k = i["kind"] + ":" + i["mode"]
+        k = klass(i)
         kinds[k] = kinds.get(k, 0) + 1
-    for k in ("metadata:all", "metadata:names", "metadata:ids", "nr_metadata:names", "nr_metadata:ids", "coordinator:all", "nr_coordinator:all"):
+    for k in ("metadata:all", "metadata:names", "metadata:ids", "metadata:ids:warm-cache-unchanged", "metadata:ids:after-metadata-change",
+              "nr_metadata:names", "nr_metadata:ids", "coordinator:all", "nr_coordinator:all"):
         if not kinds.get(k):
             raise Broken("vacuous run: no input of kind %s" % k)
     nontrivial = sum(1 for i in inputs if i["kind"] == "metadata" and any(t["parts"] for t in i["snap"]) and (len(i["snap"]) >= 2 or i["mode"] != "all"))
